@@ -264,6 +264,13 @@ theorem C13_load_empty_patch_identity (d : List FieldDesc) (mode : LoadMode) (mf
   cases mode <;>
     simp [load, loadWith, List.filterMap_append, hl1, hl2, hfold]
 
+/-- **C13_preview_is_single_patch**: what a loader obtains from the main file and ONE overlay's patch file is the
+main message patched by that overlay alone — the other overlays of a scattered sheet do not enter (this is what
+the DryRun 'patch' preview of that overlay must show; `e2e.C13.dryrun` compares them) -/
+theorem C13_preview_is_single_patch (d : List FieldDesc) (main p : Val) :
+    load d .merge .all main [some p] = patch d main p := by
+  simp [load, loadWith]
+
 example : load [] .merge .all (.msg [(1, .int 1)]) [some (.msg []), none] = .msg [(1, .int 1)] := by
   simp [load, loadWith, patch, patchFields]
 
